@@ -47,6 +47,21 @@ type Case struct {
 	// MTimes: modification times (unix seconds) given to files of the initial tree after it has been materialised
 	// (after C01-s15 / C04-s14: the epoch and instants before it are ordinary modification times)
 	MTimes map[string]int64 `json:"mtimes,omitempty"`
+	// Links: symbolic links (path below the root, target; "$ROOT/" in a target stands for the served directory) planted
+	// after the tree has been materialised; model-free families only
+	Links [][2]string `json:"links,omitempty"`
+}
+
+func (e *env) plant(links [][2]string) {
+	if len(links) == 0 {
+		return
+	}
+	for _, l := range links {
+		os.Symlink(strings.Replace(l[1], "$ROOT/", e.root+"/", 1), filepath.Join(e.root, filepath.FromSlash(l[0])))
+	}
+	if snap, err := Snapshot(e.root); err == nil {
+		e.have = snap
+	}
 }
 
 func (e *env) setTimes(m map[string]int64) {
@@ -491,6 +506,37 @@ func TestBodyFaults(t *testing.T) {
 			}
 		}
 	}
+	// uploads addressed to symbolic links (after C02-s11): a link that leads nowhere and a link to another file of the
+	// served directory; a failing upload leaves the link, and whatever it names, as they were.  Model-free (C02, C17).
+	for _, body := range []string{"", "x", small, big} {
+		for _, k := range []int{0, 1, len(body) / 2, len(body)} {
+			for _, kind := range []string{"error", "canceled"} {
+				for _, target := range []string{"/dangling", "/tolink", "/dir/dangling2"} {
+					idx++
+					if !vev.MyShare(idx) {
+						continue
+					}
+					k := k
+					s := mk(map[string]string{"old": "previous content of old"})
+					e.have = nil
+					os.RemoveAll(e.root)
+					e.set(s)
+					links := [][2]string{{"dangling", "$ROOT/ghost"}, {"tolink", "$ROOT/old"}, {"dir/dangling2", "nowhere/at/all"}}
+					e.plant(links)
+					r := vfs.Req{Method: "PUT", Path: target, Body: body, FailAfter: &k, FailKind: kind}
+					st, err := e.step(r)
+					if err != nil {
+						t.Fatal(err)
+					}
+					v := e.judge(st, "F/link")
+					v.o01 = vev.Outcome{}
+					report(t, Case{Tree: ToJ(s), Reqs: []vfs.Req{r}, NoModel: true, Links: links}, v)
+					e.have = nil
+					os.RemoveAll(e.root)
+				}
+			}
+		}
+	}
 	rec02.ExhaustiveSub("PUT body failure at every offset of bodies of 0, 1 and 64 bytes and at offsets around 32 KiB/64 KiB of an 80000-byte body x 3 failure kinds x 6 target kinds")
 }
 
@@ -635,6 +681,7 @@ func runCase(t testing.TB, c Case) verdicts {
 	}
 	e.set(tree)
 	e.setTimes(c.MTimes)
+	e.plant(c.Links)
 	var last verdicts
 	for _, r := range c.Reqs {
 		if e.have == nil {
